@@ -14,7 +14,9 @@ func init() {
 	register("C11", propInfo{
 		Explanation: "Static decision of the structural clauses of C11 (Accept upgrades only valid requests): verifyClientRequest's accept condition is extracted from the SSA as the exact set of facts on its single success path (with integer subjects swept over all regions) and compared with the RFC 6455 §4.2.1 oracle; every other path returns a constant HTTP error status; accept hijacks only behind that gate; the accept key is base64(SHA-1(key+GUID)) by construction; subprotocol selection iterates server preferences outermost.",
 		Decides: []string{
-			"C11.verify: success ⇔ HTTP ≥ 1.1 ∧ Connection∋Upgrade ∧ Upgrade∋websocket ∧ GET ∧ version 13 ∧ exactly one key ∧ base64 decodes to 16 bytes; all other paths return a constant 4xx/5xx status and an error",
+			"C11.ascii / C11.ascii.fold / C11.ascii.trim: tokens, key and subprotocol names are never trimmed or compared with strings.TrimSpace / strings.EqualFold; asciiLower maps exactly 'A'..'Z' (table over 21 byte regions), asciiEqualFold compares lengths and every byte pair through it, trimOWS strips exactly SP and HTAB",
+			"C11.single: no decision is taken on Header.Get of a header that must be single-valued",
+			"C11.verify: success ⇔ HTTP ≥ 1.1 ∧ Connection∋Upgrade ∧ Upgrade∋websocket ∧ GET ∧ exactly one version line with the value 13 ∧ exactly one key ∧ base64 decodes to 16 bytes; all other paths return a constant 4xx/5xx status and an error",
 			"C11.gate: Hijack is reached only after verifyClientRequest returned nil (and the origin check passed); the failing edge answers http.Error with verify's status and returns no Conn",
 			"C11.key: Sec-WebSocket-Accept = StdEncoding(SHA-1(key ‖ GUID)) with the RFC GUID; the response sets it from the request's key together with Upgrade/Connection before WriteHeader(101)",
 			"C11.sub: selectSubprotocol returns the first server-preferred protocol offered by the client (outer loop over the server list), else \"\"",
@@ -26,8 +28,8 @@ func init() {
 	register("C12", propInfo{
 		Explanation: "Static decision of the structural clauses of C12 (cross-origin refusal): authenticateOrigin's ALLOW paths are extracted with their facts and compared with the oracle (no Origin; EqualFold(r.Host, parsed.Host); some pattern matches parsed.Host), with provenance of the compared operands; accept refuses with 403 before any upgrade header unless InsecureSkipVerify.",
 		Decides: []string{
-			"C12.auth: the only nil returns of authenticateOrigin are: empty Origin header; strings.EqualFold(r.Host, u.Host) with u = url.Parse(Origin) succeeded; match(pattern, u.Host) true for a pattern of the configured list; a parse error or pattern error is a refusal",
-			"C12.match: match lower-cases both sides and uses filepath.Match (whole-string)",
+			"C12.auth: the only nil returns of authenticateOrigin are, for a request with at most one Origin line: empty Origin header; asciiEqualFold(r.Host, u.Host) with u = url.Parse(Origin) succeeded and u.Host non-empty; match(pattern, u.Host) true for a pattern of the configured list; a parse error, a host-less Origin or a pattern error is a refusal",
+			"C12.match: match lowers the ASCII letters of both sides (asciiToLower, decided byte-wise through asciiLower) and uses filepath.Match (whole-string)",
 			"C12.gate: in accept, every response-header Set and Hijack are behind InsecureSkipVerify ∨ authenticateOrigin == nil; the failing edge sends 403 and returns no Conn",
 		},
 		NotDecided: []string{"what url.Parse and filepath.Match do with adversarial strings (trusted)"},
@@ -38,8 +40,9 @@ func init() {
 		Decides: []string{
 			"C13.req: GET; Header = opts.HTTPHeader.Clone() then Connection/Upgrade/Version/Key set; Host override iff non-empty; subprotocols joined by ','; extensions iff copts != nil",
 			"C13.key: secWebSocketKey reads 16 bytes with io.ReadFull from crypto/rand (unless injected) and base64-encodes them; dial passes the same value to the request and to verifyServerResponse",
-			"C13.verify: success ⇔ 101 ∧ Connection∋Upgrade ∧ Upgrade∋WebSocket ∧ Accept == secWebSocketAccept(key) ∧ subprotocol ok ∧ extensions ok",
-			"C13.sub: verifySubprotocol accepts an empty header or one EqualFold-equal to a requested protocol",
+			"C13.verify: success ⇔ 101 ∧ Connection∋Upgrade ∧ Upgrade∋WebSocket ∧ exactly one Accept line == secWebSocketAccept(key) ∧ no Protocol line, or exactly one that is empty or ASCII-case-insensitively equal to a requested protocol ∧ extensions ok (line counts read as intervals, whatever the spelling)",
+			"C13.single: no decision is taken on Header.Get of Sec-WebSocket-Accept / Sec-WebSocket-Protocol",
+			"C13.offer.opts: the options the offer is rendered from are a fresh object per handshake (CompressionMode.opts), both flags set exactly for the no-context-takeover mode",
 			"C13.gate: in dial, newConn is reached only after handshakeRequest and verifyServerResponse returned nil; error returns carry no Conn",
 		},
 		NotDecided: []string{"net/http client behaviour, redirects"},
@@ -49,6 +52,8 @@ func init() {
 		Explanation: "Static decision of the structural clauses of C14 (permessage-deflate negotiation): acceptDeflate and verifyServerExtensions are extracted as total tables over all parameter strings (equivalence classes induced by the constants the code and the oracle compare with); the rendering, the fallback loop, the identity of the negotiated options stored on both ends and the per-direction takeover selection are checked against RFC 7692 §7.",
 		Decides: []string{
 			"C14.server: per offered parameter: client_/server_no_context_takeover set the respective flag; client_max_window_bits, client_max_window_bits=N with N a decimal 8..15 without leading zeros, and server_max_window_bits=15 accepted without effect; every other string declines the offer",
+			"C14.bits: the window-bits rows of both tables over 32 value classes (8..15; out of range; leading zero; sign; white space; text; empty)",
+			"C14.dup: both sides ask duplicateParam about the list they decide and refuse on yes; duplicateParam returns true only after two names compared equal and false for two or more parameters only after comparing; paramName is the text before the first '='",
 			"C14.fallback: disabled mode ↦ no compression before any offer is looked at; only permessage-deflate offers are considered; a declined offer falls through to the next; exhaustion ↦ none",
 			"C14.render: String() emits client_no_context_takeover ⇔ client flag, server_no_context_takeover ⇔ server flag and no other parameter",
 			"C14.client: response without extension ↦ none; other extension, more than one, or none offered ↦ error; parameters OR the two flags into a copy of the offer, tolerate server_max_window_bits=N with N a decimal 8..15, reject anything else",
@@ -217,7 +222,7 @@ func c11gate(p *Program, r *Report, rule string) {
 		})
 	// response headers and 101 precede Hijack; Accept computed from the request's key
 	p.forAllPaths(r, "C11.resp", fn, "101 response", Opts{},
-		"before Hijack the response carries Upgrade: websocket, Connection: Upgrade, Sec-WebSocket-Accept = secWebSocketAccept(r.Header.Get(\"Sec-WebSocket-Key\")) and WriteHeader(101); the selected subprotocol is set iff non-empty; Sec-WebSocket-Extensions iff a deflate offer was accepted, rendered from the selected options",
+		"before Hijack the response carries Upgrade: websocket, Connection: Upgrade, Sec-WebSocket-Accept = secWebSocketAccept(trimOWS(r.Header.Get(\"Sec-WebSocket-Key\"))) - the key as verifyClientRequest validated it - and WriteHeader(101); the selected subprotocol is set iff non-empty; Sec-WebSocket-Extensions iff a deflate offer was accepted, rendered from the selected options",
 		func(pa *Path) (bool, string) {
 			hi := eventIndex(pa, 0, func(e *Event) bool { return isCall(e, "invoke http.Hijacker.Hijack") })
 			if hi < 0 {
@@ -237,7 +242,9 @@ func c11gate(p *Program, r *Report, rule string) {
 			if sets["Upgrade"] != `"websocket"` || sets["Connection"] != `"Upgrade"` {
 				return false, fmt.Sprintf("Upgrade=%s Connection=%s", sets["Upgrade"], sets["Connection"])
 			}
-			if sets["Sec-WebSocket-Accept"] != `secWebSocketAccept((http.Header).Get(Request.Header,"Sec-WebSocket-Key"))` {
+			// the key is hashed in the form verifyClientRequest validated it in: trimmed of SP/HTAB (F26)
+			if sets["Sec-WebSocket-Accept"] != `secWebSocketAccept(`+trimFn+`((http.Header).Get(Request.Header,"Sec-WebSocket-Key")))` &&
+				sets["Sec-WebSocket-Accept"] != `secWebSocketAccept(`+trimFn+`(elem((http.Header).Values(Request.Header,"Sec-WebSocket-Key"))[0]))` {
 				return false, "Sec-WebSocket-Accept = " + sets["Sec-WebSocket-Accept"]
 			}
 			if !wh {
@@ -492,6 +499,16 @@ func c11sub(p *Program, r *Report, rule string) {
 
 // ---- C12 ------------------------------------------------------------------------------------------------------
 
+// headerLineCount: the path confines the number of lines of the header (len of Header.Values(name)) to [lo,hi].
+func headerLineCount(pa *Path, header string, lo, hi int64) bool {
+	for _, e := range pa.Calls("(http.Header).Values") {
+		if argKey(e, 1) == strconv.Quote(header) {
+			return pa.IntWithin("len("+e.Res.Key()+")", 0, 4, lo, hi)
+		}
+	}
+	return false
+}
+
 func runC12(p *Program, r *Report) {
 	fn := p.Func("authenticateOrigin")
 	if fn != nil {
@@ -503,23 +520,33 @@ func runC12(p *Program, r *Report) {
 		if ok {
 			const origin = `(http.Header).Get(Request.Header,"Origin")`
 			const parsed = `(url.Parse(` + origin + `)#1 == nil)=true`
+			const hostOK = `(URL.Host == "")=false`
+			const pat0 = `filepath.Match(asciiToLower(elem(param:originHosts)[0]),asciiToLower(URL.Host))`
 			allowed := [][]string{
 				{`(` + origin + ` == "")=true`},
-				{`(` + origin + ` == "")=false`, parsed, `strings.EqualFold(Request.Host,URL.Host)=true`},
-				{`(` + origin + ` == "")=false`, parsed, `strings.EqualFold(Request.Host,URL.Host)=false`, `(len(param:originHosts) > 0)=true`,
-					`(filepath.Match(strings.ToLower(elem(param:originHosts)[0]),strings.ToLower(URL.Host))#1 == nil)=true`, `filepath.Match(strings.ToLower(elem(param:originHosts)[0]),strings.ToLower(URL.Host))#0=true`},
+				{`(` + origin + ` == "")=false`, parsed, hostOK, foldFn + `(Request.Host,URL.Host)=true`},
+				{`(` + origin + ` == "")=false`, parsed, hostOK, foldFn + `(Request.Host,URL.Host)=false`, `(len(param:originHosts) > 0)=true`,
+					`(` + pat0 + `#1 == nil)=true`, pat0 + `#0=true`},
 			}
 			seen := map[int]bool{}
 			for _, s := range succ {
 				matched := false
+				// at most one Origin line (F27): read as an interval, whatever the spelling
+				var facts []string
+				for _, f := range s.Facts {
+					if !strings.HasPrefix(f, `(len((http.Header).Values(Request.Header,"Origin"))`) {
+						facts = append(facts, f)
+					}
+				}
+				lines := headerLineCount(s.Path, "Origin", 0, 1)
 				for i, a := range allowed {
-					if m, e := sameSet(s.Facts, a); len(m)+len(e) == 0 {
+					if m, e := sameSet(facts, a); len(m)+len(e) == 0 && lines {
 						matched = true
 						seen[i] = true
 					}
 				}
 				r.Check("C12.auth", "authenticateOrigin", "allow: "+strings.Join(s.Facts, " ∧ "), pos, matched,
-					"authenticateOrigin returns nil only for: no Origin header; EqualFold(r.Host, url.Parse(Origin).Host); a configured pattern matching that parsed Host", "allow path with facts "+strings.Join(s.Facts, " ∧ "))
+					"authenticateOrigin returns nil only for a request with at most one Origin line and: no Origin; or an Origin that parses to a URL with a non-empty host which is asciiEqualFold to r.Host or matched by a configured pattern (both sides lowered with asciiToLower)", fmt.Sprintf("at most one Origin line: %v; allow path with facts %s", lines, strings.Join(s.Facts, " ∧ ")))
 			}
 			r.Check("C12.auth", "authenticateOrigin", "all three allow rows present", pos, len(seen) == 3, "the three documented allow cases exist", fmt.Sprintf("%d of 3 found among %d allow path(s)", len(seen), len(succ)))
 			// u is the successful result of url.Parse(origin header): URL.Host loads come from it
@@ -557,15 +584,15 @@ func runC12(p *Program, r *Report) {
 		}
 	}
 	if fn := p.FuncOpt("match"); fn != nil && p.absorbed["match"] != fn { // optional: C12.auth reads through it
-		p.forAllPaths(r, "C12.match", fn, "whole-string, case-insensitive", Opts{}, "match(pattern, s) = filepath.Match(strings.ToLower(pattern), strings.ToLower(s))", func(pa *Path) (bool, string) {
+		p.forAllPaths(r, "C12.match", fn, "whole-string, case-insensitive", Opts{}, "match(pattern, s) = filepath.Match(asciiToLower(pattern), asciiToLower(s))", func(pa *Path) (bool, string) {
 			fm := pa.Calls("filepath.Match")
 			if len(fm) != 1 {
 				return false, "no filepath.Match"
 			}
 			got := expandCalls(pa, fm[0].Callee+"("+argKey(fm[0], 0)+","+argKey(fm[0], 1)+")")
-			if got != "filepath.Match(strings.ToLower(param:pattern),strings.ToLower(param:s))" {
+			if got != "filepath.Match(asciiToLower(param:pattern),asciiToLower(param:s))" {
 				// the host lower-cased once by the caller(s) instead of per pattern
-				hoisted := got == "filepath.Match(strings.ToLower(param:pattern),param:s)"
+				hoisted := got == "filepath.Match(asciiToLower(param:pattern),param:s)"
 				if hoisted {
 					idx := -1
 					for k, prm := range fn.Params {
@@ -582,7 +609,7 @@ func runC12(p *Program, r *Report) {
 							hoisted = false
 							continue
 						}
-						if _, nm := p.calleeOf(&c.Call); nm != "strings.ToLower" {
+						if _, nm := p.calleeOf(&c.Call); nm != "asciiToLower" {
 							hoisted = false
 						}
 					}
@@ -777,12 +804,39 @@ func runC13(p *Program, r *Report) {
 				return true, ""
 			})
 	}
+	c13redirect(p, r, "C13.redirect")
 	c13verify(p, r, "C13.verify")
 	c14client(p, r, "C13.ext")
 	// the offer is rendered from mode.opts(): a fresh object per handshake, with both flags set exactly for the
 	// no-context-takeover mode (a shared object is rewritten by a concurrent Accept: seed C13-M)
 	shareAs(r, "C13.offer.opts", "C13.offer.opts", func(sub *Report) { c14server(p, sub, "C13.offer") })
 	cTokens(p, r, "C13.tokens")
+}
+
+// c13redirect: Dial installs its own CheckRedirect (to rewrite ws/wss), which replaces net/http's default policy of at
+// most 10 redirects. Without a policy of the caller the hook must keep a bound, or a server that always redirects keeps
+// Dial requesting for ever (F30).
+func c13redirect(p *Program, r *Report, rule string) {
+	fn := p.FuncOpt("DialOptions.cloneWithDefaults$1")
+	if fn == nil {
+		r.Undecide("%s: the CheckRedirect hook installed by DialOptions.cloneWithDefaults was not found", rule)
+		return
+	}
+	p.forAllPaths(r, rule, fn, "redirects bounded", Opts{}, "the CheckRedirect hook returns nil (follow the redirect) only after the caller's own policy said so, or when fewer than 10 requests were made so far (len(via) < 10, net/http's default bound)", func(pa *Path) (bool, string) {
+		if pa.End != "return" || nilness(pa.Ret[0], pa) != -1 {
+			return true, ""
+		}
+		// the caller's policy decided
+		for _, e := range pa.Events {
+			if e.Kind == "call" && (strings.Contains(e.Callee, "oldCheckRedirect") || strings.HasPrefix(e.Callee, "dynamic")) {
+				return true, ""
+			}
+		}
+		if pa.IntWithin("len(param:via)", 0, 64, 0, 9) {
+			return true, ""
+		}
+		return false, "nil returned without a caller policy and without a bound on len(via)"
+	})
 }
 
 func randReaderPkg(p *Program, fn *ssa.Function) (string, bool) {
